@@ -179,7 +179,7 @@ def plan(tier, seed, wave):
     if tier == "quick":
         if wave > 0:
             return []
-        nm, nf = 96, 32
+        nm, nf = 64, 24
     else:
         nm, nf = 64, 48   # per wave; waves repeat until VERIF_BUDGET_S is used
     tasks = []
